@@ -422,7 +422,15 @@ func checkOverwriteHistory(rep *Reporter, r *gen.Rng, specT, v1, v2 *T) {
 		if !ok1 || !ok2 || !ok3 || !impl.SetValue(s1, v1) || !impl.SetValue(s2, v2) {
 			return
 		}
-		if !writeThrough(f, s1, v1, w1) || !writeThrough(f, s2, v2, w2) {
+		if !writeThrough(f, s1, v1, w1) {
+			return
+		}
+		// look at the field between the two writes: whatever an observer builds lazily is built now
+		_, _ = f.String()
+		_, _ = f.Bytes()
+		_, _ = json.Marshal(f)
+		_, _ = f.Pack()
+		if !writeThrough(f, s2, v2, w2) {
 			return
 		}
 		holds, err := f.String()
@@ -431,6 +439,7 @@ func checkOverwriteHistory(rep *Reporter, r *gen.Rng, specT, v1, v2 *T) {
 		}
 		holdsB, _ := f.Bytes()
 		holdsV := impl.ValueTree(f)
+		holdsJ, jerr := json.Marshal(f)
 		packed, err := f.Pack()
 		if err != nil {
 			return
@@ -446,6 +455,30 @@ func checkOverwriteHistory(rep *Reporter, r *gen.Rng, specT, v1, v2 *T) {
 		if ok, _ := sameValue(canon(specT, impl.ValueTree(fresh)), canon(specT, holdsV)); !ok {
 			rep.Viol("after two writes to one field, Pack encodes something other than the value the field holds", line,
 				fmt.Sprintf("the field reports %q (bytes %x), Pack gave %x, which unpacks to %q (bytes %x)", holds, holdsB, packed, got, gotB))
+			return
+		}
+		// a field that received only the second write (through the same writer) is observed the same way
+		if w2 == "marshal-zero" {
+			return
+		}
+		only, _ := impl.FieldOfTree(specT)
+		if !writeThrough(only, s2, v2, w2) {
+			return
+		}
+		oS, _ := only.String()
+		oB, _ := only.Bytes()
+		oJ, ojerr := json.Marshal(only)
+		oP, operr := only.Pack()
+		switch {
+		case oS != holds || !bytes.Equal(oB, holdsB):
+			rep.Viol("a field written twice reports a different value than a field that received only the second write", line,
+				fmt.Sprintf("twice: %q / %x | once: %q / %x", holds, holdsB, oS, oB))
+		case (jerr == nil) != (ojerr == nil) || !bytes.Equal(holdsJ, oJ):
+			rep.Viol("a field written twice gives a different JSON document than a field that received only the second write", line,
+				fmt.Sprintf("twice: %s | once: %s", holdsJ, oJ))
+		case operr != nil || !bytes.Equal(packed, oP):
+			rep.Viol("a field written twice packs differently from a field that received only the second write", line,
+				fmt.Sprintf("twice: %x | once: %x", packed, oP))
 		}
 	})
 }
